@@ -59,8 +59,11 @@ CHECKS = {
          "lock), and results and final cache are compared with the model run in the observed acquisition order and with the sequential oracle.",
          "Proved for every number of threads, every assignment of queries and EVERY schedule: mutual exclusion, every visible level is the "
          "spec level at every moment (also mid-build/mid-compaction), no thread fails, every read returns the spec level (av_concurrent_correct, "
-         "instantiated with the C02 cache invariant); the lock discipline is extracted from the AST each run. Atomicity of single CPython "
-         "container operations is assumed; progress needs a fairness assumption and is not stated.", "5/C07"),
+         "instantiated with the C02 cache invariant), every finished thread has exactly the answers it would have got alone, no reachable state is "
+         "deadlocked, and every schedule that can be cut into enough fair rounds ends with all threads finished and correct. All of it holds for both "
+         "lock disciplines the translator can read from the AST each run: the plain `with lock` of the source and double-checked locking (an existing "
+         "level is read without the lock; fast_read_eq_locked_read). Atomicity of single CPython container operations and fairness of the real "
+         "scheduler are assumed.", "5/C07"),
  "C12": ("Lean 4 theorems: sorting code = device, sortable <-> identity <-> pattern classes (Knuth), counters = least number of passes, Simion-Schmidt bijection, dihedral/alternating families + correspondence",
          "Proved for all permutations: stack/bubble/pop/quick sort code equals one pass of the device; sortable iff output is the identity iff "
          "Av(231) / Av(231,321) / Av(231,312); counters terminate with the least k; West-k iff count<=k; Simion-Schmidt is a bijection "
